@@ -59,8 +59,12 @@ func (d *MachineNumscriptRuntimeAdapter) Execute(ctx context.Context, store Stor
 			errMetadataOverride := &machine.ErrMetadataOverride{}
 			_ = errors.As(err, &errMetadataOverride)
 			return nil, newErrMetadataOverride(errMetadataOverride.Key())
-		default:
+		case errors.Is(err, &machine.ErrInsufficientFund{}):
 			return nil, fmt.Errorf("failed to execute machine: %w", err)
+		default:
+			// the machine only runs the script here (the store was read before): `fail`, a negative computed
+			// amount, an invalid operand are errors of the script, i.e. of the client
+			return nil, newErrCompilationFailed(fmt.Errorf("failed to execute machine: %w", err))
 		}
 	}
 
